@@ -68,6 +68,7 @@ def run(ck: Checker):
                  f'{gen} dispatches on the requested mode, forwards big_endian and outputs exactly the returned bits', 'shape changed', construct=f'{gen} dispatch')
     ck.floor('C08.REG', 14)
     R.check_add_only(ck, 'C08.ADD-ONLY', [MUL, SQ])
+    R.check_fresh_generated(ck, 'C08.ADD-ONLY', [MUL, SQ])
     ck.floor('C08.ADD-ONLY', 14)
     R.check_args(ck, eff, 'C08.ARGS', [MUL, SQ])
     ck.floor('C08.ARGS', 30)
